@@ -53,12 +53,13 @@ def Scope.ids (s : Scope) : Ids := (s.frames.headD {}).ids
 
 def renderName (f : Name) : Name := "render_".toList ++ f
 
-/-- names of the defs / blocks `visitCallTag`'s `DefVisitor` writes into `ccall` (it descends into nested calls) -/
+/-- names of the defs / blocks `visitCallTag`'s `DefVisitor` writes into `ccall` (whether it descends into nested calls
+is a regenerated fact) -/
 def callDefNames : Body → List Name
   | .nil => []
   | .defn _ f _ _ _ r => f :: callDefNames r
   | .block _ _ fn _ _ _ r => fn :: callDefNames r
-  | .call _ _ _ _ b r => callDefNames b ++ callDefNames r
+  | .call _ _ _ _ b r => (if Generated.Names.callDefsDescendCalls then callDefNames b else []) ++ callDefNames r
   | .leaf _ _ _ r | .text _ _ r | .code _ _ _ r | .page _ _ _ r => callDefNames r
 
 /-- `body_identifiers` of a `<%call>` seen from the enclosing `_Identifiers` `p` -/
@@ -149,9 +150,10 @@ def callDefsIn (c : Cfg) (mods : Ids) (inDef useCD : Bool) (cal : Ids) (ccD : Fr
   | .leaf _ _ _ r | .text _ _ r | .code _ _ _ r | .page _ _ _ r =>
       callDefsIn c mods inDef useCD cal ccD rest path r
   | .call _ _ _ _ b r =>
-      -- `DefVisitor` has no `visitCallTag`: the default traversal descends into a nested `<%call>`, whose defs
-      -- are therefore written (and exported) here as well
-      callDefsIn c mods inDef useCD cal ccD rest path b ++ callDefsIn c mods inDef useCD cal ccD rest path r
+      -- a `DefVisitor` without `visitCallTag` descends (default traversal) into a nested `<%call>`, whose defs are then
+      -- written (and exported) here as well; regenerated flag
+      (if Generated.Names.callDefsDescendCalls then callDefsIn c mods inDef useCD cal ccD rest path b else [])
+        ++ callDefsIn c mods inDef useCD cal ccD rest path r
   | .defn t f a u b r =>
       (let ids := visitDefSelf (cal.branch false) false f a u b
        let fr' : Frame := { ids, params := a, own := ownOf b, defs := closOf false b, useLocals := useCD }
